@@ -2,6 +2,7 @@ package c02
 
 import (
 	"bytes"
+	"encoding/binary"
 	"fmt"
 	"os"
 	"path/filepath"
@@ -23,6 +24,7 @@ import (
 	genfont "verif/harness/gen/font"
 	"verif/harness/gen/lookups"
 	"verif/harness/guard"
+	"verif/harness/ref/refcff"
 	"verif/harness/ref/refcmap"
 	"verif/harness/ref/refsfnt"
 	"verif/harness/stats"
@@ -198,6 +200,70 @@ func tableOfFont(t *rapid.T, tag string) []byte {
 	return d
 }
 
+// subrSeed assembles (with the reference CFF writer) a font program whose
+// charstrings and subroutines are drawn from a hostile token grammar: calls
+// that resolve to existing global/local subroutines (so that call chains and
+// cycles form, including calls that are the last byte of their body), bodies
+// without return/endchar, stack-heavy operand runs, hint operators and stray
+// bytes.  The library's own writer never emits subroutines, so mutating its
+// output hardly ever reaches the call logic of the charstring interpreter.
+func subrSeed(t *rapid.T) []byte {
+	nG := rapid.IntRange(0, 3).Draw(t, "nGsubrs")
+	nL := rapid.IntRange(0, 3).Draw(t, "nLsubrs")
+	num := func(v int) []byte { // -107..107
+		return []byte{byte(v + 139)}
+	}
+	body := func(lab string) []byte {
+		var b []byte
+		n := rapid.IntRange(0, 8).Draw(t, lab+"Len")
+		for i := 0; i < n; i++ {
+			switch rapid.IntRange(0, 11).Draw(t, lab+"Tok") {
+			case 0, 1, 2:
+				b = append(b, num(rapid.IntRange(-107, 107).Draw(t, lab+"Num"))...)
+			case 3, 4:
+				if nG > 0 {
+					b = append(b, num(rapid.IntRange(0, nG-1).Draw(t, lab+"G")-107)...)
+					b = append(b, 29) // callgsubr
+				}
+			case 5, 6:
+				if nL > 0 {
+					b = append(b, num(rapid.IntRange(0, nL-1).Draw(t, lab+"L")-107)...)
+					b = append(b, 10) // callsubr
+				}
+			case 7:
+				b = append(b, 11) // return
+			case 8:
+				b = append(b, 14) // endchar
+			case 9:
+				b = append(b, rapid.SampledFrom([]byte{1, 3, 18, 23, 19, 20, 21, 22, 4, 5, 6, 7, 8, 24, 25, 26, 27, 30, 31}).Draw(t, lab+"Op"))
+			case 10:
+				b = append(b, 12, byte(rapid.IntRange(0, 40).Draw(t, lab+"Esc")))
+			default:
+				b = append(b, byte(rapid.IntRange(0, 255).Draw(t, lab+"Raw")))
+			}
+		}
+		return b
+	}
+	spec := refcff.Spec{FontName: "Subr"}
+	for i := 0; i < nG; i++ {
+		spec.GSubrs = append(spec.GSubrs, body("gsubr"))
+	}
+	fd := refcff.FDSpec{}
+	for i := 0; i < nL; i++ {
+		fd.Subrs = append(fd.Subrs, body("lsubr"))
+	}
+	spec.FDs = []refcff.FDSpec{fd}
+	for i := rapid.IntRange(1, 3).Draw(t, "nGlyphs"); i > 0; i-- {
+		spec.CharStrings = append(spec.CharStrings, body("glyph"))
+	}
+	var out []byte
+	if guard.Try(func() { out = refcff.Build(spec) }) != nil {
+		t.Skip("not assembled")
+	}
+	stats.Label("cff", "seed:hostile-subroutines")
+	return out
+}
+
 func seedFor(t *rapid.T, name string) []byte {
 	switch name {
 	case "sfnt.Read/ReaderAt", "sfnt.Read/Reader", "header.Read":
@@ -207,6 +273,9 @@ func seedFor(t *rapid.T, name string) []byte {
 		b, _ := fontBytes(t, genfont.KindAny, 24)
 		return b
 	case "cff.Read":
+		if rapid.IntRange(0, 2).Draw(t, "cffSubrSeed") == 0 {
+			return subrSeed(t)
+		}
 		kind := rapid.SampledFrom([]genfont.Kind{genfont.KindCFF, genfont.KindCID}).Draw(t, "cffKind")
 		b, _ := fontBytes(t, kind, 24)
 		f, _ := refsfnt.Parse(b)
@@ -216,9 +285,39 @@ func seedFor(t *rapid.T, name string) []byte {
 		}
 		return d
 	case "cmap.Decode":
-		switch rapid.IntRange(0, 3).Draw(t, "cmapSeed") {
+		switch rapid.IntRange(0, 4).Draw(t, "cmapSeed") {
 		case 0:
 			return tableOfFont(t, "cmap")
+		case 4:
+			// a format 12 or 13 subtable with many sorted, non-overlapping
+			// groups of drawn sizes: each group may be within any per-group
+			// limit while the total is far out of proportion to the 12 bytes
+			// a group occupies
+			n := rapid.OneOf(rapid.IntRange(1, 8), rapid.IntRange(9, 300)).Draw(t, "nGroups")
+			format := rapid.SampledFrom([]int{12, 12, 12, 13}).Draw(t, "bigFormat")
+			sub := make([]byte, 16, 16+12*n)
+			sub[1] = byte(format)
+			binary.BigEndian.PutUint32(sub[4:], uint32(16+12*n))
+			binary.BigEndian.PutUint32(sub[12:], uint32(n))
+			size := rapid.SampledFrom([]int{1, 300, 65535, 65536, 65537, 1 << 20}).Draw(t, "groupSize")
+			code := uint32(rapid.IntRange(0, 70000).Draw(t, "firstCode"))
+			for i := 0; i < n; i++ {
+				sz := size
+				if rapid.IntRange(0, 3).Draw(t, "varySize") == 0 {
+					sz = rapid.IntRange(1, 70000).Draw(t, "size")
+				}
+				sub = binary.BigEndian.AppendUint32(sub, code)
+				sub = binary.BigEndian.AppendUint32(sub, code+uint32(sz)-1)
+				sub = binary.BigEndian.AppendUint32(sub, uint32(rapid.IntRange(0, 65535).Draw(t, "startGid")))
+				code += uint32(sz) + uint32(rapid.IntRange(0, 3).Draw(t, "gap"))
+			}
+			stats.Label("cmap", "seed:many-large-groups")
+			tbl := cmap.Table{{PlatformID: 3, EncodingID: 10}: sub}
+			var out []byte
+			if guard.Try(func() { out = tbl.Encode() }) != nil {
+				t.Skip("cmap table not encodable")
+			}
+			return out
 		default:
 			// table with harness-encoded subtables in formats the library reads but does not write
 			tbl := cmap.Table{}
